@@ -4,12 +4,15 @@ set -eu
 ROOT="$(cd "$(dirname "$0")" && pwd)"
 export CARGO_NET_OFFLINE=true
 cd "$ROOT/harness"
-# three builds: main (hooks + assertions), release without hooks (as shipped), release with hooks (for C07 / C17)
+# four builds (the fourth: fast_qr unoptimised, used by C10 only): main (hooks + assertions), release without hooks (as shipped), release with hooks (for C07 / C17)
 cargo build --offline --profile verifrel -p vcheck --no-default-features --target-dir "$ROOT/harness/target-rel-nohooks" &
 rel=$!
 cargo build --offline --profile verifrel -p vcheck --target-dir "$ROOT/harness/target-rel-hooks" &
 relh=$!
+cargo build --offline --profile verifdev -p vcheck --target-dir "$ROOT/harness/target-dev" &
+dev=$!
 cargo build --offline --profile verif -p vcheck
+wait $dev
 wait $rel
 wait $relh
 if [ -f shim/iofault.c ]; then
